@@ -1,9 +1,9 @@
 """C14 latest delivers an in-order subsequence ending with the newest element (structural clauses)"""
-from ..rules import delivery
+from ..rules import delivery, flow
 from .common import declare
 
-RULES = ['MAILBOX', 'SINGLE-CONSUMER', 'SERIAL-DRAIN', 'EMIT-SIG', 'PASS-VALUE', 'FANOUT']
-FLOORS = {'MAILBOX': 2, 'SINGLE-CONSUMER': 1, 'SERIAL-DRAIN': 1, 'EMIT-SIG': 2, 'PASS-VALUE': 1, 'FANOUT': 3}
+RULES = ['MAILBOX', 'SINGLE-CONSUMER', 'SERIAL-DRAIN', 'EMIT-SIG', 'PASS-VALUE', 'FANOUT', 'AWAITABLE-RESULT']
+FLOORS = {'MAILBOX': 2, 'SINGLE-CONSUMER': 1, 'SERIAL-DRAIN': 1, 'EMIT-SIG': 2, 'PASS-VALUE': 1, 'FANOUT': 3, 'AWAITABLE-RESULT': 1}
 
 META = {
     'level': "Static analysis of latest's single-slot mailbox: the wait on the edge-triggered Condition is guarded by a predicate "
@@ -19,7 +19,7 @@ META = {
 
 def run(ctx, R):
     R.explanation = 'Mailbox discipline of streamz.core.latest (update/cb) on every enumerated path.'
-    declare(R, delivery.RULES, RULES, FLOORS)
+    declare(R, {**delivery.RULES, **flow.RULES}, RULES, FLOORS)
     cls = [ctx.model.cls('streamz.core', 'latest')]
     R.run(delivery.check_mailbox, ctx, R, cls)
     R.run(delivery.check_single_consumer, ctx, R, cls)
@@ -28,7 +28,11 @@ def run(ctx, R):
     R.run(delivery.check_pass_value, ctx, R, cls)
     # the forwarder delivers through Stream._emit: a consumer that detaches itself during delivery must not kill it
     R.run(delivery.check_fanout, ctx, R)
+    # ... and yields on what the consumers hand back: a sink that returns a plain value among the results makes the forwarding
+    # coroutine fail on its yield (BadYieldError) - it dies silently and the newest element is never delivered
+    R.run(flow.check_awaitable_result, ctx, R, [c for c in ctx.model.nodes if c.module.name in ('streamz.core', 'streamz.sinks')])
 
 
 META['level'] += ' MAILBOX also requires a notification after every store into the slot and a slot that wraps the element (no element value can look like the empty marker).'
 META['level'] += ' MAILBOX also requires that every normal path of update() stores the arrival (stores-every-arrival) and that no method but the forwarding coroutine empties the slot (only-forwarder-empties); the forwarder delivers through an _emit that iterates a snapshot of its consumers (FANOUT).'
+META['level'] += ' AWAITABLE-RESULT: what a sink hands back to the forwarding coroutine is an awaitable or nothing (a plain value would end the forwarder on its yield).'
